@@ -30,7 +30,7 @@ CONSTANT Broken   \* "none"; "reportFiltersInPlace": the report filters the shar
 S(st, a, b) == [stack |-> st, v |-> <<a, b>>]
 Contents == { <<S(<<"a", "b">>, 1, 10)>>, <<S(<<"a", "b">>, 2, 0), S(<<"c">>, 0, 5)>>, <<S(<<"b">>, 3, 3), S(<<"a", "a", "b">>, 1, 1)>> }
 Names == {"s1", "s2", "s3"}
-Assignments == { <<"focus", {"a"}>>, <<"focus", {}>>, <<"ignore", {"c"}>>, <<"hide", {"b"}>>, <<"si", 1>>, <<"rel", TRUE>> }
+Assignments == { <<"focus", {"a"}>>, <<"focus", {}>>, <<"ignore", {"c"}>>, <<"hide", {"b"}>>, <<"g", "files">>, <<"si", 1>>, <<"rel", TRUE>> }
 MaxLines == 3
 
 VARIABLES phase, srcs, pending, prof, symSeen, opts, lines, lastReport, usedForReport
@@ -54,6 +54,7 @@ Apply(o, a) == CASE a[1] = "focus" -> [o EXCEPT !.focus = a[2]]
                  [] a[1] = "ignore" -> [o EXCEPT !.ignore = a[2]]
                  [] a[1] = "hide" -> [o EXCEPT !.hide = a[2]]
                  [] a[1] = "show" -> [o EXCEPT !.show = a[2]]
+                 [] a[1] = "g" -> [o EXCEPT !.g = a[2]]
                  [] a[1] = "si" -> [o EXCEPT !.si = a[2]]
                  [] a[1] = "rel" -> [o EXCEPT !.rel = a[2]]
 Assign(a) == /\ phase = "session" /\ lines < MaxLines /\ lines' = lines + 1
